@@ -754,7 +754,7 @@ class GenericRdata(Rdata):
         data: bytes,
     ) -> None:
         super().__init__(rdclass, rdtype)
-        self.data = data
+        self.data = self._as_bytes(data)
 
     def to_styled_text(
         self,
